@@ -14,6 +14,10 @@ package props
 //   env VERIF_REPLAY_JSON     JSON case descriptor to replay (non-rapid checks)
 
 import (
+	tmproto "github.com/tendermint/tendermint/proto/tendermint/types"
+	ethcrypto "github.com/ethereum/go-ethereum/crypto"
+	"github.com/ethereum/go-ethereum/crypto/ecies"
+	"encoding/base64"
 	"encoding/json"
 	"flag"
 	"fmt"
@@ -346,3 +350,15 @@ func fatalf(t *rapid.T, sig string, format string, args ...any) {
 	t.Helper()
 	t.Fatalf("VERIF-FAIL signature=%s :: %s", sig, fmt.Sprintf(format, args...))
 }
+
+func b64(b []byte) string { return base64.RawURLEncoding.EncodeToString(b) }
+
+func mustECIES(compressed []byte) *ecies.PublicKey {
+	pk, err := ethcrypto.DecompressPubkey(compressed)
+	if err != nil {
+		panic(err)
+	}
+	return ecies.ImportECDSAPublic(pk)
+}
+
+func headerAt(h int64) tmproto.Header { return tmproto.Header{Height: h} }
